@@ -346,12 +346,28 @@ class SimMinimizer:
         self.optimize = self
         self.rate, self.seed, self.max_evals = fault_rate, fault_seed, max_evals
         self.calls = 0
+        self.probe_calls = 0
         self.fired: Dict[str, int] = {k: 0 for k in FAULTS}
         self.evals = 0
         self.budget_hits = 0
 
-    def approx_fprime(self, *a, **k):
-        return self._real.optimize.approx_fprime(*a, **k)
+    def approx_fprime(self, xk, f, *a, **k):
+        # the sensitivity probe may meet a degenerate cell too (the quality measure raises
+        # ValueError): injected at a fraction of the configured fault rate
+        self.probe_calls += 1
+        fs = Stream(self.seed, "probe", self.probe_calls)
+        if fs.random() < self.rate * 0.25:
+            xp = np.array(xk, dtype=float)
+            eps = k.get("epsilon", a[0] if a else 1e-6)
+            xp[fs.randrange(len(xp))] += float(np.atleast_1d(eps)[0])
+            f(xp)
+            self.fired["probe_degenerate"] = self.fired.get("probe_degenerate", 0) + 1
+            w = seams.CURRENT
+            if w is not None:
+                w.count("fault:solver-probe_degenerate")
+                w.event("probe", self.probe_calls, "degenerate")
+            raise ValueError("Degenerate Cell: simulated (sensitivity probe)")
+        return self._real.optimize.approx_fprime(xk, f, *a, **k)
 
     def __getattr__(self, name):
         return getattr(self._real.optimize, name)
